@@ -42,6 +42,14 @@ def corpus_for(pid):
     return items
 
 
+def equivalents_for(pid):
+    """behaviour-preserving refactorings (selftest/equivalents/*.diff): the check must stay silent on every one of them"""
+    out = []
+    for pth in sorted(glob.glob(os.path.join(VERIF, "selftest", "equivalents", "*.diff"))):
+        out.append(("equivalents/" + os.path.basename(pth)[:-5], "patch", pth))
+    return out
+
+
 def replay_one(args):
     pid, name, kind, payload, repo = args
     tmp = tempfile.mkdtemp(prefix="thorough.", dir="/tmp")
@@ -176,8 +184,21 @@ def run(chk, prog, pid):
         rep.append({"mutant": name, "status": status, "report": detail})
         if status == "missed":
             chk.selftest_failures.append("mutant %s is no longer reported by %s (%s)" % (name, pid, detail))
+    # behaviour-preserving refactorings must not be reported
+    ejobs = [(pid, name, kind, payload, facts.REPO) for (name, kind, payload) in equivalents_for(pid)]
+    with ThreadPoolExecutor(max_workers=8) as ex:
+        eres = list(ex.map(replay_one, ejobs))
+    erep = []
+    for name, status, detail in eres:
+        st2 = {"caught": "FALSE-ALARM", "missed": "silent", "skipped": "skipped"}[status]
+        erep.append({"refactoring": name, "status": st2, "report": detail if status == "caught" else None})
+        if status == "caught":
+            chk.selftest_failures.append("behaviour-preserving refactoring %s is reported by %s (%s)" % (name, pid, detail))
+    chk.extra["equivalents_replayed"] = erep
+    chk.extra["equivalents_silent"] = sum(1 for r in erep if r["status"] == "silent")
     chk.extra["mutants_replayed"] = rep
     chk.extra["mutants_caught"] = sum(1 for r in rep if r["status"] == "caught")
     chk.extra["mutants_skipped"] = [r["mutant"] for r in rep if r["status"] == "skipped"]
     n = chk.extra["mutants_caught"]
-    print("%s thorough: %d mutant(s) replayed, %d caught, %d skipped" % (pid, len(rep), n, len(chk.extra["mutants_skipped"])))
+    print("%s thorough: %d mutant(s) replayed, %d caught, %d skipped; %d behaviour-preserving refactoring(s) replayed, %d silent" % (
+        pid, len(rep), n, len(chk.extra["mutants_skipped"]), len(erep), chk.extra["equivalents_silent"]))
